@@ -1063,6 +1063,37 @@ func genSweeps(r *gen.Rand, base string, idx *int) []*Case {
 	return out
 }
 
+// pairsCase: a fixed series set and, for a few texts, every ordered pair of operators (= != =~ !~) on the same key and text,
+// the two queries back to back on both search paths with the caches emptied before each pair: whatever is cached for the first
+// filter must not answer the second one.
+func pairsCase(dir string, i int) *Case {
+	rn := newRunner(gen.New(7), dir, i, "pairs")
+	mst := "cpu_0000"
+	for _, h := range []string{"web", "web-1", "xweb", "db", "a", "ab", "b"} {
+		rn.doInsert(mst, [][2]string{{"host", h}})
+	}
+	rn.doInsert(mst, [][2]string{{"region", "eu"}})
+	rn.e.b.Flush()
+	rn.c.Ops = append(rn.c.Ops, Op{Op: "flush"})
+	opsL := []string{"eq", "neq", "re", "nre"}
+	for _, t := range []string{"web", "a"} {
+		for _, o1 := range opsL {
+			for _, o2 := range opsL {
+				if o1 == o2 {
+					continue
+				}
+				must(rn.e.b.ClearCache())
+				rn.c.Ops = append(rn.c.Ops, Op{Op: "clear"})
+				rn.doQuery(mst, &Expr{T: "atom", K: "host", O: o1, V: t})
+				rn.doQuery(mst, &Expr{T: "atom", K: "host", O: o2, V: t})
+			}
+		}
+	}
+	rn.finishAtoms()
+	must(rn.e.b.Close())
+	return rn.c
+}
+
 func (rn *runner) maintenance(kind string) {
 	switch kind {
 	case "clear":
@@ -1156,6 +1187,10 @@ func main() {
 	}
 	r := gen.FromEnv(10)
 	if n > 0 && !perlMode {
+		dir := filepath.Join(base, "pairs")
+		gen.Emit(pairsCase(dir, idx))
+		os.RemoveAll(dir)
+		idx++
 		nsweep := 2
 		if gen.Tier() != "quick" {
 			nsweep = 12
